@@ -15,3 +15,758 @@ Qed.
 
 Lemma define_all_silent : forall stages, define_all stages = (stages, []).
 Proof. intros stages. unfold define_all. now rewrite define_all_from. Qed.
+
+(* ---- traces --------------------------------------------------------------------------------------------------- *)
+Lemma events_app : forall t1 t2, events (t1 ++ t2) = events t1 ++ events t2.
+Proof. induction t1 as [|[e|v] t IH]; intros t2; simpl; rewrite ?IH; reflexivity. Qed.
+Lemma outs_app : forall t1 t2, outs (t1 ++ t2) = outs t1 ++ outs t2.
+Proof. induction t1 as [|[e|v] t IH]; intros t2; simpl; rewrite ?IH; reflexivity. Qed.
+Lemma events_map_Out : forall l, events (map Out l) = [].
+Proof. induction l; simpl; auto. Qed.
+Lemma outs_map_Out : forall l, outs (map Out l) = l.
+Proof. induction l; simpl; congruence. Qed.
+Lemma events_map_Ev : forall l, events (map Ev l) = l.
+Proof. induction l; simpl; congruence. Qed.
+Lemma outs_map_Ev : forall l, outs (map Ev l) = [].
+Proof. induction l; simpl; auto. Qed.
+
+Lemma flat_map_single : forall l : list Z, flat_map (fun a => [a]) l = l.
+Proof. induction l; simpl; congruence. Qed.
+
+(* ---- a generator expression: same outputs as the plain list, one call per pulled element -------------------- *)
+Lemma lazy_stage_outs : forall s p k t j, outs (lazy_stage s p k j t) = flat_map k (outs t).
+Proof.
+  intros s p k. induction t as [|[e|a] t IH]; intros j; simpl; auto.
+  rewrite outs_app, outs_map_Out, IH. reflexivity.
+Qed.
+
+Lemma lazy_stage_events : forall s p k t j,
+  Permutation (events (lazy_stage s p k j t)) (events t ++ enum_events s p j (outs t)).
+Proof.
+  intros s p k. induction t as [|[e|a] t IH]; intros j; simpl.
+  - constructor.
+  - constructor. apply IH.
+  - rewrite events_app, events_map_Out. simpl. apply Permutation_cons_app. apply IH.
+Qed.
+
+Lemma skip_stage_outs : forall s p t j f, outs (skip_stage s p j f t) = outs t.
+Proof.
+  intros s p. induction t as [|[e|a] t IH]; intros j f; simpl; auto.
+  destruct f; simpl; rewrite IH; reflexivity.
+Qed.
+
+Lemma skip_stage_events : forall s p t j f,
+  Permutation (events (skip_stage s p j f t))
+              (events t ++ enum_events s p j (if f then tl (outs t) else outs t)).
+Proof.
+  intros s p. induction t as [|[e|a] t IH]; intros j f; simpl.
+  - destruct f; simpl; constructor.
+  - constructor. apply IH.
+  - destruct f; simpl.
+    + apply (IH j false).
+    + apply Permutation_cons_app. apply (IH (j + 1) false).
+Qed.
+
+(* ---- one stage, a pipeline, a partition ----------------------------------------------------------------------- *)
+Lemma perm_insert : forall (c e : list event) x, Permutation (c ++ x :: e) ((c ++ e) ++ [x]).
+Proof.
+  intros c e x. rewrite <- app_assoc. apply Permutation_app_head.
+  change (x :: e) with ([x] ++ e). apply Permutation_app_comm.
+Qed.
+
+Lemma run_stage_spec : forall s p st pt,
+  all_outs (run_stage s p st pt) = sem_stage st (all_outs pt) /\
+  Permutation (all_events (run_stage s p st pt)) (all_events pt ++ own_events s p st (all_outs pt)).
+Proof.
+  intros s p st [cr b]. unfold all_outs, all_events.
+  destruct st as [f|q|g|m| |wi h| ]; simpl.
+  1-4: (split; [apply lazy_stage_outs |
+                rewrite <- app_assoc; apply Permutation_app_head; apply lazy_stage_events]).
+  - rewrite outs_map_Out, events_map_Out, !app_nil_r. split; auto.
+  - rewrite outs_map_Out, events_map_Out, app_nil_r. split; auto. apply perm_insert.
+  - rewrite outs_app, outs_map_Ev, events_app, events_map_Ev. simpl. rewrite app_nil_r. split; auto.
+    apply perm_insert.
+Qed.
+
+Lemma run_from_spec : forall stages s p pt,
+  all_outs (run_from s p stages pt) = sem_pipe stages (all_outs pt) /\
+  Permutation (all_events (run_from s p stages pt)) (all_events pt ++ exp_from s p stages (all_outs pt)).
+Proof.
+  induction stages as [|st rest IH]; intros s p pt; simpl.
+  - rewrite app_nil_r. split; auto.
+  - destruct (run_stage_spec s p st pt) as [Ho He].
+    destruct (IH (s + 1) p (run_stage s p st pt)) as [Ho' He'].
+    rewrite Ho in Ho', He'. split; auto.
+    rewrite He'. rewrite He. rewrite <- app_assoc. reflexivity.
+Qed.
+
+Lemma run_part_outs : forall p stages xs, all_outs (run_part p stages xs) = sem_pipe stages xs.
+Proof.
+  intros p stages xs. unfold run_part. destruct (run_from_spec stages 1 p (source p xs)) as [H _].
+  rewrite H. unfold source, all_outs; simpl. rewrite lazy_stage_outs, outs_map_Out, flat_map_single. reflexivity.
+Qed.
+
+Lemma run_part_events : forall p stages xs,
+  Permutation (all_events (run_part p stages xs)) (part_events p stages xs).
+Proof.
+  intros p stages xs. unfold run_part, part_events.
+  destruct (run_from_spec stages 1 p (source p xs)) as [_ H]. rewrite H.
+  assert (Ho : all_outs (source p xs) = xs).
+  { unfold source, all_outs; simpl. now rewrite lazy_stage_outs, outs_map_Out, flat_map_single. }
+  rewrite Ho. apply Permutation_app_tail.
+  unfold source, all_events; simpl. rewrite lazy_stage_events, events_map_Out, outs_map_Out. reflexivity.
+Qed.
+
+(* ---- single-pass jobs ----------------------------------------------------------------------------------------- *)
+Lemma act_body_outs : forall a sa p t, outs (act_body a sa p t) = outs t.
+Proof.
+  intros a sa p t. destruct a; simpl; auto;
+    try (rewrite lazy_stage_outs; apply flat_map_single); apply skip_stage_outs.
+Qed.
+
+Lemma act_body_events : forall a sa p t,
+  Permutation (events (act_body a sa p t)) (events t ++ act_events a sa p (outs t)).
+Proof.
+  intros a sa p t. destruct a; simpl; rewrite ?app_nil_r; auto;
+    try apply lazy_stage_events. apply (skip_stage_events sa p t 0 true).
+Qed.
+
+Lemma perm_rearrange : forall (X Y A B C D E : list event),
+  Permutation X (A ++ B) -> Permutation Y (C ++ D) ->
+  Permutation (X ++ E ++ Y) ((A ++ C) ++ (B ++ E ++ D)).
+Proof.
+  intros X Y A B C D E HX HY. rewrite HX, HY.
+  rewrite <- !app_assoc. apply Permutation_app_head.
+  rewrite (app_assoc B E (C ++ D)). rewrite (app_assoc B E D).
+  apply Permutation_app_swap_app.
+Qed.
+
+Definition task_of (stages : list stage) (px : Z * list Z) : Z * ptrace :=
+  (fst px, run_part (fst px) stages (snd px)).
+
+Lemma indexed_map : forall (A B : Type) (f : A -> B) l i,
+  indexed i (map f l) = map (fun px => (fst px, f (snd px))) (indexed i l).
+Proof. induction l as [|x r IH]; intros i; simpl; auto. now rewrite IH. Qed.
+
+Lemma job_loop_perm : forall a sa stages parts i st,
+  Permutation (job_loop a sa st (map (task_of stages) (indexed i parts)))
+              (concat (map (fun px => part_events (fst px) stages (snd px)) (indexed i parts))
+               ++ action_loop a sa st (indexed i (map (sem_pipe stages) parts))).
+Proof.
+  intros a sa stages. induction parts as [|xs rest IH]; intros i st; simpl.
+  - constructor.
+  - rewrite act_body_outs.
+    change (outs (body (run_part i stages xs))) with (all_outs (run_part i stages xs)).
+    rewrite run_part_outs.
+    set (ce := comb_step a sa i st (sem_pipe stages xs)).
+    apply perm_rearrange.
+    + rewrite act_body_events.
+      change (outs (body (run_part i stages xs))) with (all_outs (run_part i stages xs)).
+      rewrite run_part_outs. rewrite app_assoc. apply Permutation_app_tail.
+      apply run_part_events.
+    + apply IH.
+Qed.
+
+Lemma job_log_perm : forall a stages parts,
+  Permutation (job_log a stages parts) (pipeline_events stages parts ++ action_events a stages parts).
+Proof. intros. unfold job_log, tasks, pipeline_events, action_events. apply job_loop_perm. Qed.
+
+(* ---- the expected events are pairwise distinct ----------------------------------------------------------------- *)
+Definition epid (e : event) : Z := match e with (_, p, _, _) => p end.
+Definition eidx (e : event) : Z := match e with (_, _, j, _) => j end.
+
+Lemma NoDup_app_intro : forall (A : Type) (l1 l2 : list A),
+  NoDup l1 -> NoDup l2 -> (forall x, In x l1 -> ~ In x l2) -> NoDup (l1 ++ l2).
+Proof.
+  induction l1 as [|a l1 IH]; intros l2 H1 H2 D; simpl; auto.
+  inversion H1; subst. constructor.
+  - rewrite in_app_iff. intros [H|H]; [contradiction | apply (D a); simpl; auto].
+  - apply IH; auto. intros x Hx. apply D. simpl; auto.
+Qed.
+
+Lemma NoDup_app_l : forall (A : Type) (l1 l2 : list A), NoDup (l1 ++ l2) -> NoDup l1.
+Proof.
+  induction l1 as [|a l1 IH]; intros l2 H; [constructor|].
+  simpl in H. inversion H; subst. constructor.
+  - intros C. apply H2. apply in_or_app. auto.
+  - eapply IH; eauto.
+Qed.
+
+Lemma enum_events_in : forall s p l j e,
+  In e (enum_events s p j l) -> estage e = s /\ epid e = p /\ j <= eidx e.
+Proof.
+  intros s p. induction l as [|a r IH]; intros j e H; simpl in H; [contradiction|].
+  destruct H as [H|H].
+  - subst e; simpl. repeat split; lia.
+  - destruct (IH _ _ H) as (H1 & H2 & H3). repeat split; auto; lia.
+Qed.
+
+Lemma enum_events_nth : forall s p l j i a,
+  nth_error l i = Some a -> In (s, p, j + Z.of_nat i, a) (enum_events s p j l).
+Proof.
+  intros s p. induction l as [|b r IH]; intros j i a H; destruct i; simpl in *; try discriminate.
+  - inversion H; subst. left. do 2 f_equal; lia.
+  - right. replace (j + Z.pos (Pos.of_succ_nat i)) with ((j + 1) + Z.of_nat i) by lia. apply IH; auto.
+Qed.
+
+Lemma enum_events_inv : forall s p l j e,
+  In e (enum_events s p j l) ->
+  exists i a, nth_error l i = Some a /\ e = (s, p, j + Z.of_nat i, a).
+Proof.
+  intros s p. induction l as [|b r IH]; intros j e H; simpl in H; [contradiction|].
+  destruct H as [H|H].
+  - exists 0%nat, b. split; auto. subst e. do 2 f_equal; lia.
+  - destruct (IH _ _ H) as (i & a & Hn & He). exists (S i), a. split; auto.
+    subst e. do 2 f_equal; lia.
+Qed.
+
+Lemma enum_events_NoDup : forall s p l j, NoDup (enum_events s p j l).
+Proof.
+  intros s p. induction l as [|a r IH]; intros j; simpl; constructor; auto.
+  intros H. apply enum_events_in in H. simpl in H. lia.
+Qed.
+
+Lemma epart_of_pid : forall e p, 0 <= p -> epid e = p -> epart e = p.
+Proof.
+  intros [[[s q] j] v] p Hp H; simpl in *. subst q.
+  destruct (p =? -1) eqn:E; auto. apply Z.eqb_eq in E. lia.
+Qed.
+
+Lemma own_events_in : forall s p st xs e, 0 <= p ->
+  In e (own_events s p st xs) -> estage e = s /\ epart e = p.
+Proof.
+  intros s p st xs e Hp H.
+  assert (Henum : forall l, In e (enum_events s p 0 l) -> estage e = s /\ epart e = p).
+  { intros l Hl. apply enum_events_in in Hl. destruct Hl as (H1 & H2 & _). split; auto.
+    apply epart_of_pid; auto. }
+  destruct st as [f|q|g|m| |wi h| ]; simpl in H; eauto.
+  - contradiction.
+  - destruct H as [H|[]]. subst e. unfold call_event. destruct wi; simpl; split; auto.
+    destruct (p =? -1) eqn:E; auto. apply Z.eqb_eq in E. lia.
+  - destruct H as [H|[]]. subst e; simpl. split; auto.
+    destruct (p =? -1) eqn:E; auto. apply Z.eqb_eq in E. lia.
+Qed.
+
+Lemma own_events_NoDup : forall s p st xs, NoDup (own_events s p st xs).
+Proof.
+  intros s p st xs. destruct st; simpl; try apply enum_events_NoDup; repeat constructor; simpl; tauto.
+Qed.
+
+Lemma exp_from_in : forall stages s p xs e, 0 <= p ->
+  In e (exp_from s p stages xs) -> s <= estage e < s + Z.of_nat (length stages) /\ epart e = p.
+Proof.
+  induction stages as [|st rest IH]; intros s p xs e Hp H; simpl in H; [contradiction|].
+  apply in_app_or in H. destruct H as [H|H].
+  - apply own_events_in in H; auto. destruct H. split; auto. simpl length. lia.
+  - apply IH in H; auto. destruct H. split; auto. simpl length. lia.
+Qed.
+
+Lemma exp_from_NoDup : forall stages s p xs, 0 <= p -> NoDup (exp_from s p stages xs).
+Proof.
+  induction stages as [|st rest IH]; intros s p xs Hp; simpl; [constructor|].
+  apply NoDup_app_intro; auto using own_events_NoDup.
+  intros e H1 H2. apply own_events_in in H1; auto. apply exp_from_in in H2; auto. lia.
+Qed.
+
+Lemma part_events_in : forall p stages xs e, 0 <= p ->
+  In e (part_events p stages xs) -> 0 <= estage e <= Z.of_nat (length stages) /\ epart e = p.
+Proof.
+  intros p stages xs e Hp H. unfold part_events in H. apply in_app_or in H. destruct H as [H|H].
+  - apply enum_events_in in H. destruct H as (H1 & H2 & _). split; [lia|]. apply epart_of_pid; auto.
+  - apply exp_from_in in H; auto. destruct H. split; auto. lia.
+Qed.
+
+Lemma part_events_NoDup : forall p stages xs, 0 <= p -> NoDup (part_events p stages xs).
+Proof.
+  intros p stages xs Hp. unfold part_events. apply NoDup_app_intro.
+  - apply enum_events_NoDup.
+  - apply exp_from_NoDup; auto.
+  - intros e H1 H2. apply enum_events_in in H1. apply exp_from_in in H2; auto. lia.
+Qed.
+
+Definition pe (stages : list stage) (px : Z * list Z) : list event := part_events (fst px) stages (snd px).
+
+Lemma indexed_in : forall (A : Type) (l : list A) i p x, In (p, x) (indexed i l) -> i <= p < i + Z.of_nat (length l).
+Proof.
+  induction l as [|y r IH]; intros i p x H; simpl in H; [contradiction|].
+  destruct H as [H|H].
+  - inversion H; subst. simpl length. lia.
+  - apply IH in H. simpl length. lia.
+Qed.
+
+Lemma pipeline_from_in : forall stages parts i e, 0 <= i ->
+  In e (concat (map (pe stages) (indexed i parts))) ->
+  0 <= estage e <= Z.of_nat (length stages) /\ i <= epart e < i + Z.of_nat (length parts).
+Proof.
+  intros stages parts i e Hi H. apply in_concat in H. destruct H as (l & Hl & He).
+  apply in_map_iff in Hl. destruct Hl as ([p xs] & Hpe & Hin). subst l. unfold pe in He; simpl in He.
+  apply indexed_in in Hin. apply part_events_in in He; [|lia]. destruct He. split; auto. lia.
+Qed.
+
+Lemma pipeline_from_NoDup : forall stages parts i, 0 <= i -> NoDup (concat (map (pe stages) (indexed i parts))).
+Proof.
+  intros stages. induction parts as [|xs rest IH]; intros i Hi; simpl; [constructor|].
+  apply NoDup_app_intro.
+  - unfold pe; simpl. apply part_events_NoDup; auto.
+  - apply IH. lia.
+  - intros e H1 H2. unfold pe in H1; simpl in H1. apply part_events_in in H1; auto.
+    apply pipeline_from_in in H2; [|lia]. lia.
+Qed.
+
+Lemma pipeline_events_NoDup : forall stages parts, NoDup (pipeline_events stages parts).
+Proof. intros. apply (pipeline_from_NoDup stages parts 0). lia. Qed.
+
+Lemma pipeline_events_in : forall stages parts e, In e (pipeline_events stages parts) ->
+  0 <= estage e <= Z.of_nat (length stages) /\ 0 <= epart e < Z.of_nat (length parts).
+Proof. intros stages parts e H. apply (pipeline_from_in stages parts 0) in H; lia. Qed.
+
+(* ---- take ------------------------------------------------------------------------------------------------------ *)
+Lemma take_trace_spec : forall t n l o r, take_trace n t = (l, o, r) ->
+  (exists suf, events t = l ++ suf) /\ (r <> 0%nat -> l = events t) /\
+  o = firstn n (outs t) /\ r = (n - length (outs t))%nat.
+Proof.
+  induction t as [|[e|a] t IH]; intros n l o r H; destruct n as [|n']; simpl in H.
+  - inversion H; subst. repeat split; auto. exists []; auto.
+  - inversion H; subst. repeat split; auto. exists []; auto.
+  - inversion H; subst. repeat split; auto; [eexists; simpl; reflexivity | intros C; congruence].
+  - destruct (take_trace (S n') t) as [[l1 o1] r1] eqn:E. inversion H; subst.
+    destruct (IH _ _ _ _ E) as ((suf & Hs) & Hr & Ho & Hn). simpl outs. simpl events.
+    repeat split; auto.
+    + exists suf. rewrite Hs. reflexivity.
+    + intros C. rewrite (Hr C). reflexivity.
+  - inversion H; subst. repeat split; auto; [eexists; simpl; reflexivity | intros C; congruence].
+  - destruct (take_trace n' t) as [[l1 o1] r1] eqn:E. inversion H; subst.
+    destruct (IH _ _ _ _ E) as ((suf & Hs) & Hr & Ho & Hn). simpl outs. simpl events.
+    split; [|split; [|split]].
+    + exists suf. exact Hs.
+    + exact Hr.
+    + simpl. rewrite Ho. reflexivity.
+    + simpl. exact Hn.
+Qed.
+
+Definition ev_of (t : Z * ptrace) : list event := all_events (snd t).
+Definition out_of (t : Z * ptrace) : list Z := all_outs (snd t).
+
+Lemma take_parts_zero : forall ts, take_parts 0 ts = ([], []).
+Proof. destruct ts; reflexivity. Qed.
+
+Lemma take_parts_spec : forall ts n l o, take_parts n ts = (l, o) ->
+  (exists suf, concat (map ev_of ts) = l ++ suf) /\ o = firstn n (concat (map out_of ts)).
+Proof.
+  induction ts as [|[p pt] rest IH]; intros n l o H.
+  - destruct n; simpl in H; inversion H; subst; simpl; split; eauto.
+  - destruct n as [|n']; [rewrite take_parts_zero in H; inversion H; subst; simpl; split; eauto|].
+    simpl in H. destruct (take_trace (S n') (body pt)) as [[l1 o1] r] eqn:E1.
+    destruct (take_parts r rest) as [l2 o2] eqn:E2. inversion H; subst. clear H.
+    destruct (take_trace_spec _ _ _ _ _ E1) as ((suf1 & Hs1) & Hr & Ho1 & Hn).
+    destruct (IH _ _ _ E2) as ((suf2 & Hs2) & Ho2).
+    simpl map. simpl concat. split.
+    + unfold ev_of at 1, all_events. simpl snd.
+      destruct r as [|r'].
+      * rewrite take_parts_zero in E2. inversion E2; subst. rewrite Hs1.
+        exists (suf1 ++ concat (map ev_of rest)). rewrite app_nil_r, <- !app_assoc. reflexivity.
+      * rewrite (Hr ltac:(discriminate)), Hs2. exists suf2. rewrite <- !app_assoc. reflexivity.
+    + unfold out_of at 1, all_outs. simpl snd. rewrite firstn_app, <- Ho1, <- Hn, <- Ho2. reflexivity.
+Qed.
+
+Lemma take_parts_frontier : forall ts n q l o, take_parts n ts = (l, o) ->
+  (n <= length (concat (map out_of (firstn (S q) ts))))%nat ->
+  exists suf, concat (map ev_of (firstn (S q) ts)) = l ++ suf.
+Proof.
+  induction ts as [|[p pt] rest IH]; intros n q l o H Hn.
+  - destruct n; simpl in H; inversion H; subst; simpl; eauto.
+  - destruct n as [|n']; [rewrite take_parts_zero in H; inversion H; subst; simpl; eauto|].
+    simpl in H. destruct (take_trace (S n') (body pt)) as [[l1 o1] r] eqn:E1.
+    destruct (take_parts r rest) as [l2 o2] eqn:E2. inversion H; subst. clear H.
+    destruct (take_trace_spec _ _ _ _ _ E1) as ((suf1 & Hs1) & Hr & Ho1 & Hr2).
+    change (firstn (S q) ((p, pt) :: rest)) with ((p, pt) :: firstn q rest) in *.
+    simpl map in Hn |- *. simpl concat in Hn |- *. unfold ev_of at 1, all_events. unfold out_of at 1, all_outs in Hn.
+    simpl snd in Hn |- *. rewrite app_length in Hn.
+    destruct r as [|r'].
+    + rewrite take_parts_zero in E2. inversion E2; subst. rewrite Hs1.
+      exists (suf1 ++ concat (map ev_of (firstn q rest))). rewrite app_nil_r, <- !app_assoc. reflexivity.
+    + destruct q as [|q'].
+      * simpl in Hn. lia.
+      * destruct (IH (S r') q' l2 o2 E2) as (suf2 & Hs2); [lia|].
+        rewrite (Hr ltac:(discriminate)), Hs2. exists suf2. rewrite <- !app_assoc. reflexivity.
+Qed.
+
+Lemma tasks_eq : forall stages parts, tasks stages parts = map (task_of stages) (indexed 0 parts).
+Proof. reflexivity. Qed.
+
+Lemma tasks_outs_from : forall stages parts i,
+  map out_of (map (task_of stages) (indexed i parts)) = map (sem_pipe stages) parts.
+Proof.
+  intros stages. induction parts as [|xs rest IH]; intros i; simpl; auto.
+  rewrite IH. unfold out_of at 1. simpl. now rewrite run_part_outs.
+Qed.
+
+Lemma tasks_outs : forall stages parts, map out_of (tasks stages parts) = map (sem_pipe stages) parts.
+Proof. intros. apply tasks_outs_from. Qed.
+
+Lemma tasks_events_from : forall stages parts i,
+  Permutation (concat (map ev_of (map (task_of stages) (indexed i parts))))
+              (concat (map (pe stages) (indexed i parts))).
+Proof.
+  intros stages. induction parts as [|xs rest IH]; intros i; simpl; auto.
+  apply Permutation_app; [|apply IH]. unfold ev_of, pe; simpl. apply run_part_events.
+Qed.
+
+Lemma tasks_events : forall stages parts,
+  Permutation (concat (map ev_of (tasks stages parts))) (pipeline_events stages parts).
+Proof. intros. apply tasks_events_from. Qed.
+
+Lemma drain_NoDup : forall stages parts, NoDup (concat (map ev_of (tasks stages parts))).
+Proof.
+  intros. eapply Permutation_NoDup; [symmetry; apply tasks_events | apply pipeline_events_NoDup].
+Qed.
+
+(* collect drains every task, one after the other *)
+Lemma job_loop_collect : forall sa ts st, job_loop ACollect sa st ts = concat (map ev_of ts).
+Proof.
+  intros sa. induction ts as [|[p pt] rest IH]; intros st; simpl; auto.
+  rewrite IH. reflexivity.
+Qed.
+
+Lemma collect_log_drain : forall stages parts,
+  job_log ACollect stages parts = concat (map ev_of (tasks stages parts)).
+Proof. intros. apply job_loop_collect. Qed.
+
+Lemma take_log_prefix : forall n stages parts,
+  exists suf, job_log ACollect stages parts = take_log n stages parts ++ suf.
+Proof.
+  intros n stages parts. rewrite collect_log_drain. unfold take_log.
+  destruct (take_parts n (tasks stages parts)) as [l o] eqn:E.
+  destruct (take_parts_spec _ _ _ _ E) as [H _]. exact H.
+Qed.
+
+Lemma take_log_NoDup : forall n stages parts, NoDup (take_log n stages parts).
+Proof.
+  intros n stages parts. destruct (take_log_prefix n stages parts) as (suf & H).
+  pose proof (drain_NoDup stages parts) as D. rewrite <- collect_log_drain, H in D.
+  eapply NoDup_app_l. exact D.
+Qed.
+
+Lemma take_result_spec : forall n stages parts,
+  take_result n stages parts = firstn n (concat (map (sem_pipe stages) parts)).
+Proof.
+  intros n stages parts. unfold take_result.
+  destruct (take_parts n (tasks stages parts)) as [l o] eqn:E.
+  destruct (take_parts_spec _ _ _ _ E) as [_ H]. simpl. rewrite H, tasks_outs. reflexivity.
+Qed.
+
+Lemma take_zero_silent : forall stages parts, take_log 0 stages parts = [].
+Proof. intros. unfold take_log. now rewrite take_parts_zero. Qed.
+
+Lemma firstn_indexed_in : forall (A : Type) (l : list A) k i p x,
+  In (p, x) (firstn k (indexed i l)) -> i <= p < i + Z.of_nat k.
+Proof.
+  induction l as [|y r IH]; intros k i p x H; destruct k; simpl in H; try contradiction.
+  destruct H as [H|H].
+  - inversion H; subst. lia.
+  - apply IH in H. lia.
+Qed.
+
+Lemma take_log_frontier : forall n stages parts q e,
+  (n <= length (concat (firstn (S q) (map (sem_pipe stages) parts))))%nat ->
+  In e (take_log n stages parts) -> 0 <= epart e <= Z.of_nat q.
+Proof.
+  intros n stages parts q e Hn He. unfold take_log in He.
+  destruct (take_parts n (tasks stages parts)) as [l o] eqn:E. simpl in He.
+  destruct (take_parts_frontier _ _ q _ _ E) as (suf & Hs).
+  - rewrite <- firstn_map, tasks_outs. exact Hn.
+  - assert (Hin : In e (concat (map ev_of (firstn (S q) (tasks stages parts))))).
+    { rewrite Hs. apply in_or_app. auto. }
+    apply in_concat in Hin. destruct Hin as (l' & Hl' & Hel').
+    apply in_map_iff in Hl'. destruct Hl' as ([p pt] & Hev & Hin). subst l'.
+    rewrite tasks_eq, firstn_map in Hin. apply in_map_iff in Hin.
+    destruct Hin as ([p' xs] & Ht & Hin). unfold task_of in Ht; simpl in Ht. inversion Ht; subst. clear Ht.
+    apply firstn_indexed_in in Hin. unfold ev_of in Hel'; simpl in Hel'.
+    apply (Permutation_in _ (run_part_events p stages xs)) in Hel'.
+    apply part_events_in in Hel'; [|lia]. lia.
+Qed.
+
+(* ---- the action's own function(s): expected calls are pairwise distinct and distinct from pipeline calls ------ *)
+Definition nonreduce (a : action) : Prop := match a with AReduce _ => False | _ => True end.
+
+Definition mk_act (a : action) (sa : Z) (st : option Z * Z) (po : Z * list Z) : list event :=
+  act_events a sa (fst po) (snd po) ++ fst (comb_step a sa (fst po) st (snd po)).
+
+Lemma action_loop_nonreduce : forall a sa st l, nonreduce a ->
+  action_loop a sa st l = concat (map (mk_act a sa st) l).
+Proof.
+  intros a sa st l Ha. induction l as [|[p o] r IH]; simpl; auto.
+  assert (E : snd (comb_step a sa p st o) = st) by (destruct a; simpl; auto; contradiction).
+  rewrite E, IH. unfold mk_act at 2; simpl. now rewrite app_assoc.
+Qed.
+
+Lemma mk_act_in : forall a sa st p o e, nonreduce a -> 0 <= p ->
+  In e (mk_act a sa st (p, o)) -> sa <= estage e <= sa + 1 /\ epart e = p.
+Proof.
+  intros a sa st p o e Ha Hp H. unfold mk_act in H; simpl in H. apply in_app_or in H.
+  assert (Hm1 : (p =? -1) = false) by (apply Z.eqb_neq; lia).
+  destruct a; simpl in H; try contradiction; try (destruct H; contradiction);
+    destruct H as [H|H]; try contradiction;
+    try (apply enum_events_in in H; destruct H as (H1 & H2 & _); split; [lia | apply epart_of_pid; auto]);
+    try (destruct H as [H|[]]; subst e; simpl; split; [lia | reflexivity]).
+Qed.
+
+Lemma mk_act_NoDup : forall a sa st p o, nonreduce a -> 0 <= p -> NoDup (mk_act a sa st (p, o)).
+Proof.
+  intros a sa st p o Ha Hp. unfold mk_act; simpl.
+  destruct a; simpl; try contradiction; rewrite ?app_nil_r; try constructor; try apply enum_events_NoDup.
+  all: apply NoDup_app_intro; [apply enum_events_NoDup | repeat constructor; simpl; tauto |].
+  all: intros e H1 [H2|[]]; subst e; apply enum_events_in in H1; simpl in H1; lia.
+Qed.
+
+Lemma nonreduce_loop_in : forall a sa st os i e, nonreduce a -> 0 <= i ->
+  In e (concat (map (mk_act a sa st) (indexed i os))) -> sa <= estage e <= sa + 1 /\ i <= epart e.
+Proof.
+  intros a sa st os i e Ha Hi H. apply in_concat in H. destruct H as (l & Hl & He).
+  apply in_map_iff in Hl. destruct Hl as ([p o] & Hm & Hin). subst l.
+  apply indexed_in in Hin. apply mk_act_in in He; auto; lia.
+Qed.
+
+Lemma nonreduce_loop_NoDup : forall a sa st os i, nonreduce a -> 0 <= i ->
+  NoDup (concat (map (mk_act a sa st) (indexed i os))).
+Proof.
+  intros a sa st. induction os as [|o rest IH]; intros i Ha Hi; simpl; [constructor|].
+  apply NoDup_app_intro.
+  - apply mk_act_NoDup; auto.
+  - apply IH; auto; lia.
+  - intros e H1 H2. apply mk_act_in in H1; auto. apply nonreduce_loop_in in H2; auto; lia.
+Qed.
+
+Lemma reduce_loop_spec : forall op sa os i acc c, 0 <= i ->
+  NoDup (action_loop (AReduce op) sa (acc, c) (indexed i os)) /\
+  forall e, In e (action_loop (AReduce op) sa (acc, c) (indexed i os)) ->
+    estage e = sa /\ ((epid e = -1 /\ c <= eidx e) \/ i <= epid e).
+Proof.
+  intros op sa. induction os as [|o rest IH]; intros i acc c Hi; [simpl; split; [constructor | contradiction]|].
+  assert (Hi1 : 0 <= i + 1) by lia.
+  simpl indexed. cbn [action_loop]. destruct o as [|a0 o'].
+  - simpl. destruct (IH (i + 1) acc c Hi1) as [N B]. split; auto.
+    intros e He. destruct (B e He) as (Hs & [H|H]); split; auto. right; lia.
+  - assert (Henum : forall e, In e (enum_events sa i 0 o') -> estage e = sa /\ epid e = i).
+    { intros e He. apply enum_events_in in He. tauto. }
+    cbn [act_events tl comb_step fst snd]. destruct acc as [x|].
+    + destruct o' as [|a1 o''].
+      * cbn [fst snd enum_events app].
+        destruct (IH (i + 1) (Some (op x (fold_left op [] a0))) c Hi1) as [N B]. split.
+        -- constructor; auto. intros C. destruct (B _ C) as (_ & [H|H]); simpl in H; lia.
+        -- intros e [He|He]; [subst e; simpl; split; auto; right; lia|].
+           destruct (B e He) as (Hs & [H|H]); split; auto. right; lia.
+      * cbn [fst snd].
+        set (r := fold_left op (a1 :: o'') a0).
+        destruct (IH (i + 1) (Some (op x r)) (c + 1) Hi1) as [N B]. split.
+        -- apply NoDup_app_intro; [apply enum_events_NoDup | |].
+           ++ simpl. constructor; auto. intros C. destruct (B _ C) as (_ & [H|H]); simpl in H; lia.
+           ++ intros e H1 [H2|H2].
+              ** subst e. apply Henum in H1. simpl in H1. lia.
+              ** apply Henum in H1. destruct (B _ H2) as (_ & [H|H]); lia.
+        -- intros e He. apply in_app_or in He. destruct He as [He|[He|He]].
+           ++ apply Henum in He. split; [tauto | right; lia].
+           ++ subst e; simpl. split; auto. left; lia.
+           ++ destruct (B e He) as (Hs & [H|H]); split; auto; [left; lia | right; lia].
+    + cbn [fst snd app].
+      destruct (IH (i + 1) (Some (fold_left op o' a0)) c Hi1) as [N B]. split.
+      * apply NoDup_app_intro; [apply enum_events_NoDup | auto |].
+        intros e H1 H2. apply Henum in H1. destruct (B _ H2) as (_ & [H|H]); lia.
+      * intros e He. apply in_app_or in He. destruct He as [He|He].
+        -- apply Henum in He. split; [tauto | right; lia].
+        -- destruct (B e He) as (Hs & [H|H]); split; auto. right; lia.
+Qed.
+
+Lemma action_events_spec : forall a stages parts,
+  NoDup (action_events a stages parts) /\
+  forall e, In e (action_events a stages parts) -> Z.of_nat (length stages) < estage e.
+Proof.
+  intros a stages parts. unfold action_events.
+  set (sa := Z.of_nat (length stages) + 1). set (os := map (sem_pipe stages) parts).
+  destruct a as [ | | |op| | | | | | ].
+  4: { destruct (reduce_loop_spec op sa os 0 None 0 ltac:(lia)) as [N B]. split; auto.
+       intros e He. destruct (B e He) as [Hs _]. unfold sa in Hs. lia. }
+  all: rewrite action_loop_nonreduce by exact I; split;
+    [apply nonreduce_loop_NoDup; [exact I | lia] |
+     intros e He; apply nonreduce_loop_in in He; [unfold sa in He; lia | exact I | lia]].
+Qed.
+
+Lemma expected_NoDup : forall a stages parts,
+  NoDup (pipeline_events stages parts ++ action_events a stages parts).
+Proof.
+  intros a stages parts. destruct (action_events_spec a stages parts) as [N B].
+  apply NoDup_app_intro; auto using pipeline_events_NoDup.
+  intros e H1 H2. apply pipeline_events_in in H1. apply B in H2. lia.
+Qed.
+
+(* ---- exactly once, as call counts ------------------------------------------------------------------------------ *)
+Definition event_eq_dec : forall x y : event, {x = y} + {x <> y}.
+Proof. repeat decide equality. Defined.
+
+Lemma single_pass_spec : forall a stages parts,
+  Permutation (job_log a stages parts) (pipeline_events stages parts ++ action_events a stages parts) /\
+  NoDup (pipeline_events stages parts ++ action_events a stages parts).
+Proof. intros. split; [apply job_log_perm | apply expected_NoDup]. Qed.
+
+Lemma single_pass_counts : forall a stages parts e,
+  (In e (pipeline_events stages parts ++ action_events a stages parts) ->
+   count_occ event_eq_dec (job_log a stages parts) e = 1%nat) /\
+  (~ In e (pipeline_events stages parts ++ action_events a stages parts) ->
+   count_occ event_eq_dec (job_log a stages parts) e = 0%nat).
+Proof.
+  intros a stages parts e. destruct (single_pass_spec a stages parts) as [P N].
+  rewrite (proj1 (Permutation_count_occ event_eq_dec _ _) P e). split; intros H.
+  - apply (proj1 (NoDup_count_occ' event_eq_dec _) N). exact H.
+  - apply count_occ_not_In. exact H.
+Qed.
+
+Lemma job_log_NoDup : forall a stages parts, NoDup (job_log a stages parts).
+Proof.
+  intros a stages parts. destruct (single_pass_spec a stages parts) as [P N].
+  eapply Permutation_NoDup; [symmetry; exact P | exact N].
+Qed.
+
+(* which calls of an element-wise stage are expected: one per element of the plain-list input of that stage *)
+Lemma kernel_own_events : forall st k s p xs, kernel st = Some k -> own_events s p st xs = enum_events s p 0 xs.
+Proof. intros st k s p xs H. destruct st; simpl in *; auto; discriminate. Qed.
+
+Lemma enum_events_iff : forall s p l s' p' j v,
+  In (s', p', j, v) (enum_events s p 0 l) <->
+  s' = s /\ p' = p /\ exists jn, j = Z.of_nat jn /\ nth_error l jn = Some v.
+Proof.
+  intros s p l s' p' j v. split.
+  - intros H. apply enum_events_inv in H. destruct H as (i & a & Hn & He). inversion He; subst. eauto.
+  - intros (Hs & Hp & jn & Hj & Hn). subst. apply (enum_events_nth s p l 0 jn v Hn).
+Qed.
+
+Lemma exp_from_elementwise : forall stages s0 p xs i st k p' j v, 0 <= p ->
+  nth_error stages i = Some st -> kernel st = Some k ->
+  (In (s0 + Z.of_nat i, p', j, v) (exp_from s0 p stages xs) <->
+   p' = p /\ exists jn, j = Z.of_nat jn /\ nth_error (sem_pipe (firstn i stages) xs) jn = Some v).
+Proof.
+  induction stages as [|st0 rest IH]; intros s0 p xs i st k p' j v Hp Hn Hk; [destruct i; discriminate|].
+  destruct i as [|i'].
+  - simpl in Hn. inversion Hn; subst st0. simpl exp_from. rewrite (kernel_own_events st k) by auto.
+    replace (s0 + Z.of_nat 0) with s0 by lia. simpl firstn. simpl sem_pipe.
+    rewrite in_app_iff, enum_events_iff. split; [|tauto].
+    intros [H|H]; [tauto|]. apply exp_from_in in H; auto. simpl in H. lia.
+  - simpl in Hn. simpl exp_from. simpl firstn. simpl sem_pipe.
+    replace (s0 + Z.of_nat (S i')) with ((s0 + 1) + Z.of_nat i') by lia.
+    rewrite in_app_iff, <- (IH (s0 + 1) p (sem_stage st0 xs) i' st k p' j v Hp Hn Hk).
+    split; [|tauto]. intros [H|H]; auto. apply own_events_in in H; auto. simpl in H. lia.
+Qed.
+
+Lemma indexed_iff : forall (A : Type) (l : list A) i p x,
+  In (p, x) (indexed i l) <-> exists n, p = i + Z.of_nat n /\ nth_error l n = Some x.
+Proof.
+  induction l as [|y r IH]; intros i p x; simpl.
+  - split; [contradiction | intros (n & _ & H); destruct n; discriminate].
+  - rewrite IH. split.
+    + intros [H|(n & Hp & Hn)].
+      * inversion H; subst. exists 0%nat. split; [lia | reflexivity].
+      * exists (S n). split; [lia | exact Hn].
+    + intros (n & Hp & Hn). destruct n as [|n'].
+      * left. simpl in Hn. inversion Hn; subst. f_equal. lia.
+      * right. exists n'. split; [lia | exact Hn].
+Qed.
+
+Lemma pipeline_events_iff : forall stages parts e,
+  In e (pipeline_events stages parts) <->
+  exists pn xs, nth_error parts pn = Some xs /\ In e (part_events (Z.of_nat pn) stages xs).
+Proof.
+  intros stages parts e. unfold pipeline_events. rewrite in_concat. split.
+  - intros (l & Hl & He). apply in_map_iff in Hl. destruct Hl as ([p xs] & Hm & Hin). subst l. simpl in He.
+    apply indexed_iff in Hin. destruct Hin as (n & Hp & Hn). exists n, xs. split; auto.
+    replace (Z.of_nat n) with p by lia. exact He.
+  - intros (pn & xs & Hn & He). exists (part_events (Z.of_nat pn) stages xs). split; auto.
+    apply in_map_iff. exists (Z.of_nat pn, xs). split; auto. apply indexed_iff. exists pn. split; [lia | auto].
+Qed.
+
+(* the calls of element-wise stage number i+1 (function st) that are expected *)
+Lemma elementwise_expected_iff : forall stages parts i st k p j v,
+  nth_error stages i = Some st -> kernel st = Some k ->
+  (In (Z.of_nat i + 1, p, j, v) (pipeline_events stages parts) <->
+   exists pn xs jn, p = Z.of_nat pn /\ j = Z.of_nat jn /\ nth_error parts pn = Some xs /\
+                    nth_error (sem_pipe (firstn i stages) xs) jn = Some v).
+Proof.
+  intros stages parts i st k p j v Hn Hk. rewrite pipeline_events_iff. split.
+  - intros (pn & xs & Hp & He). unfold part_events in He. apply in_app_or in He. destruct He as [He|He].
+    + apply enum_events_in in He. simpl in He. lia.
+    + replace (Z.of_nat i + 1) with (1 + Z.of_nat i) in He by lia.
+      apply (exp_from_elementwise stages 1 (Z.of_nat pn) xs i st k p j v ltac:(lia) Hn Hk) in He.
+      destruct He as (Hpp & jn & Hj & Hjn). exists pn, xs, jn. auto.
+  - intros (pn & xs & jn & Hp & Hj & Hpn & Hjn). subst p. exists pn, xs. split; auto.
+    unfold part_events. apply in_or_app. right.
+    replace (Z.of_nat i + 1) with (1 + Z.of_nat i) by lia.
+    apply (exp_from_elementwise stages 1 (Z.of_nat pn) xs i st k (Z.of_nat pn) j v ltac:(lia) Hn Hk). eauto.
+Qed.
+
+Lemma elementwise_called_once : forall a stages parts i st k pn xs jn v,
+  nth_error stages i = Some st -> kernel st = Some k ->
+  nth_error parts pn = Some xs -> nth_error (sem_pipe (firstn i stages) xs) jn = Some v ->
+  count_occ event_eq_dec (job_log a stages parts) (Z.of_nat i + 1, Z.of_nat pn, Z.of_nat jn, v) = 1%nat.
+Proof.
+  intros a stages parts i st k pn xs jn v Hn Hk Hp Hj.
+  apply (proj1 (single_pass_counts a stages parts _)). apply in_or_app. left.
+  apply (elementwise_expected_iff stages parts i st k _ _ _ Hn Hk). exists pn, xs, jn. auto.
+Qed.
+
+Lemma elementwise_called_only_on_elements : forall a stages parts i st k p j v,
+  nth_error stages i = Some st -> kernel st = Some k ->
+  In (Z.of_nat i + 1, p, j, v) (job_log a stages parts) ->
+  exists pn xs jn, p = Z.of_nat pn /\ j = Z.of_nat jn /\ nth_error parts pn = Some xs /\
+                   nth_error (sem_pipe (firstn i stages) xs) jn = Some v.
+Proof.
+  intros a stages parts i st k p j v Hn Hk He.
+  apply (Permutation_in _ (job_log_perm a stages parts)) in He. apply in_app_or in He.
+  destruct He as [He|He].
+  - apply (elementwise_expected_iff stages parts i st k _ _ _ Hn Hk). exact He.
+  - apply (proj2 (action_events_spec a stages parts)) in He. simpl in He.
+    assert (i < length stages)%nat by (apply nth_error_Some; congruence). lia.
+Qed.
+
+Lemma source_read_once : forall a stages parts pn xs jn v,
+  nth_error parts pn = Some xs -> nth_error xs jn = Some v ->
+  count_occ event_eq_dec (job_log a stages parts) (0, Z.of_nat pn, Z.of_nat jn, v) = 1%nat.
+Proof.
+  intros a stages parts pn xs jn v Hp Hj.
+  apply (proj1 (single_pass_counts a stages parts _)). apply in_or_app. left.
+  apply pipeline_events_iff. exists pn, xs. split; auto. unfold part_events. apply in_or_app. left.
+  apply enum_events_iff. repeat split; auto. eauto.
+Qed.
+
+Lemma take_log_incl : forall n stages parts e,
+  In e (take_log n stages parts) -> In e (pipeline_events stages parts).
+Proof.
+  intros n stages parts e He. destruct (take_log_prefix n stages parts) as (suf & H).
+  apply (Permutation_in _ (tasks_events stages parts)). rewrite <- collect_log_drain, H.
+  apply in_or_app. auto.
+Qed.
+
+Lemma take_elementwise_only_on_elements : forall n stages parts i st k p j v,
+  nth_error stages i = Some st -> kernel st = Some k ->
+  In (Z.of_nat i + 1, p, j, v) (take_log n stages parts) ->
+  exists pn xs jn, p = Z.of_nat pn /\ j = Z.of_nat jn /\ nth_error parts pn = Some xs /\
+                   nth_error (sem_pipe (firstn i stages) xs) jn = Some v.
+Proof.
+  intros n stages parts i st k p j v Hn Hk He. apply take_log_incl in He.
+  apply (elementwise_expected_iff stages parts i st k _ _ _ Hn Hk). exact He.
+Qed.
+
+(* first() and isEmpty() are take(1) as far as evaluation is concerned *)
+Lemma query_log_first : forall stages parts, fst (run_query QFirst stages parts) = take_log 1 stages parts.
+Proof. reflexivity. Qed.
+
+Lemma query_log_isEmpty : forall stages parts,
+  fst (run_query QIsEmpty stages parts) = match parts with [] => [] | _ => take_log 1 stages parts end.
+Proof. intros stages [|xs r]; reflexivity. Qed.
+
+Lemma take_log_nil_parts : forall n stages, take_log n stages [] = [].
+Proof. intros [|n] stages; reflexivity. Qed.
+
+Lemma query_log_isEmpty' : forall stages parts, fst (run_query QIsEmpty stages parts) = take_log 1 stages parts.
+Proof. intros stages [|xs r]; reflexivity. Qed.
+
+Lemma program_spec : forall stages q parts,
+  run_program stages q parts = (0%nat, run_query q stages parts).
+Proof. intros. unfold run_program. rewrite define_all_silent. reflexivity. Qed.
